@@ -3,7 +3,7 @@
 # source half and an empty destination half with valid indices and the given epoch.  RangeList::get_slots_num against its sum spec.
 import re
 import vlib
-from units import broker_common
+from units import broker_common, range_list
 
 def build(U):
     broker_common.head(U)
@@ -26,7 +26,7 @@ def build(U):
     g.header("    pub fn end_mut(&mut self) -> (r: &mut usize)\n        ensures *r == old(self).1, final(self).0 == old(self).0, final(self).1 == *final(r)")
     U.add_fn(g)
     U.add('}\nimpl RangeList {\n')
-    U.add('    // proved in unit range_list on the real text; here only what this unit needs\n    #[verifier::external_body] pub fn new(ranges: Vec<Range>) -> (r: Self)\n        requires bounded(ranges@)\n        ensures wf(r.0@), forall|s: int| covers(r.0@, s) <==> covers(ranges@, s)\n    { unimplemented!() }\n')
+    U.add('    // proved in unit range_list on the real text; the contract text is imported from that unit\n    #[verifier::external_body]\n' + range_list.NEW_HEADER + '\n    { unimplemented!() }\n')
     g = C.fn('get_ranges', within=r'impl RangeList\b')
     g.header("    pub fn get_ranges(&self) -> (r: &[Range])\n        ensures r@ == self.0@")
     U.add_fn(g)
